@@ -241,10 +241,13 @@ Definition C04_burst_history : Prop :=
     last_sent s = Some hd -> complete_segment (db s) (bref hd) = Some (sg, true) ->
     block_in (ri (elib ek)) sg = true ->
     let c := ev_cursor ek in
-    wf_state s /\ head_chain s hd sg /\ lib_anchored s sg /\ through_cursor_hyps s sg c /\
+    (* the hypotheses of C04_burst_from_cursor and C04_burst_through *)
+    wf_state s /\ head_chain s hd sg /\ lib_anchored s sg /\
+    lib_numbered (db s) c /\ rn (cu_lib c) <= rn (libref (db s)) /\
+    (block_in (ri (cu_blk c)) sg = false -> through_cursor_hyps s sg c) /\
     exists cm evs,
       cons_fold cons0 (upto m) = Some cm /\
-      (exists rest, cs_stack cm = hd :: rest) /\
+      (exists rest, cs_stack cm = hd :: rest) /\       (* the hub head is the top of the never-disconnected consumer *)
       blocks_from_cursor s c = BOk evs /\
       cursors_ok (Some (bref hd)) (Some (cu_lib c)) (rn (cu_lib c)) evs = true /\
       cursors_ok (Some (bref hd)) (Some (cu_lib c)) 0 evs = true /\
